@@ -46,6 +46,8 @@ type G struct {
 	durs    []time.Duration
 	negAtom map[*influxql.BinaryExpr]bool
 	segs    map[*influxql.VarRef][]string
+	// quotedCall marks calls whose name must be written quoted
+	quotedCall map[*influxql.Call]bool
 	// Names records every (slot, name) pair put into the statement.
 	Names []string
 	// Passwords records password literals (C15).
@@ -61,12 +63,12 @@ func New(rg *mon.Rng, opt Opts) *G {
 	if opt.Simple {
 		b.Plain = true
 	}
-	return &G{B: b, Rg: rg, Opt: opt, Feat: map[string]int{}, durs: durPool, negAtom: map[*influxql.BinaryExpr]bool{}, segs: map[*influxql.VarRef][]string{}}
+	return &G{B: b, Rg: rg, Opt: opt, Feat: map[string]int{}, durs: durPool, negAtom: map[*influxql.BinaryExpr]bool{}, segs: map[*influxql.VarRef][]string{}, quotedCall: map[*influxql.Call]bool{}}
 }
 
 func (g *G) feat(k string) { g.Feat[k]++ }
 
-var hostileBases = []string{"my db", "a.b", `q"t`, `b\s`, "nl\nx", "1st", "é日", "select", "Time", "x'y", "FROM", "a-b", "$p", "tab\tx", "/re/", "with space ", "ünï", "true", "Or", "distinct", "DISTINCT", "now", "time", "all", "key", "temp_\u212a", "\u0130d", strings.Repeat("n", 63), strings.Repeat("L", 64), strings.Repeat("w", 65), strings.Repeat("ab", 100)}
+var hostileBases = []string{"", "my db", "a.b", `q"t`, `b\s`, "nl\nx", "1st", "é日", "select", "Time", "x'y", "FROM", "a-b", "$p", "tab\tx", "/re/", "with space ", "ünï", "true", "Or", "distinct", "DISTINCT", "now", "time", "all", "key", "temp_\u212a", "\u0130d", strings.Repeat("n", 63), strings.Repeat("L", 64), strings.Repeat("w", 65), strings.Repeat("ab", 100)}
 
 // Name returns a fresh name for a slot; every name in one statement differs.
 func (g *G) Name(slot string) string {
@@ -79,6 +81,9 @@ func (g *G) Name(slot string) string {
 	}
 	if g.Opt.Hostile && g.Rg.P(0.6) {
 		s = hostileBases[g.Rg.Intn(len(hostileBases))]
+		if s == "" && slot != "m" && slot != "t" && slot != "db" && slot != "rp" {
+			s = "e"
+		}
 		if g.Rg.P(0.7) {
 			s += strconv.Itoa(g.n)
 		}
@@ -111,7 +116,7 @@ func (g *G) strVal() string {
 
 func (g *G) next() int { g.n++; return g.n }
 
-var regexPool = []string{"cpu.*", "^server[0-9]+$", "a/b", "^(us|eu)-west$", `\d+\.\d+`, "^$", "x", "(?i)abc", "^a/b/c$", "[a-z]{2,3}", `\/already`, "^é.*", "", "a|b", `C:\\/tmp`, `a\\\\/b/`}
+var regexPool = []string{"^[^\\x00-\\x{10FFFF}]$", "^a\\P{Any}$", "^[\\x{7e}-\\x{81}]$", "^srv[\\x{7fe}-\\x{801}]$", "^(a[a-z]|b[a-z]|c[a-z]|d[a-z])$", "cpu.*", "^server[0-9]+$", "a/b", "^(us|eu)-west$", `\d+\.\d+`, "^$", "x", "(?i)abc", "^a/b/c$", "[a-z]{2,3}", `\/already`, "^é.*", "", "a|b", `C:\\/tmp`, `a\\\\/b/`}
 
 func (g *G) regexLit() *influxql.RegexLiteral {
 	src := regexPool[g.Rg.Intn(len(regexPool))]
@@ -326,8 +331,14 @@ func (g *G) atom(ctx ECtx, depth int) influxql.Expr {
 			c := g.Call(ctx, depth)
 			if c.Name == "distinct" {
 				// `-distinct(x)` is not in the grammar: DISTINCT is a keyword
-				// and a sign must be followed by a name, number or group
-				c.Name = "mean"
+				// and a sign must be followed by a name, number or group; the
+				// quoted spelling `-"distinct"(x)` is
+				if g.Rg.Bool() {
+					c.Name = "mean"
+				} else {
+					g.quotedCall[c] = true
+					g.feat("neg-atom.quoted-distinct")
+				}
 			}
 			inner = c
 		default:
@@ -587,7 +598,7 @@ func (g *G) Emit(e influxql.Expr) {
 		b.ForceGap(GapReq)
 	case *influxql.Call:
 		name := e.Name
-		if name == "distinct" && (b.Plain || g.Rg.P(0.7)) {
+		if name == "distinct" && !g.quotedCall[e] && (b.Plain || g.Rg.P(0.7)) {
 			b.Kw("DISTINCT")
 		} else if bareOK(name) && !b.QuoteAll {
 			sp := name
